@@ -255,6 +255,10 @@ class OrderedCadence(Cadence):
 
     def __setitem__(self, i, v):
         self._check(v)
+        # As for a list, positions outside [-len, len) do not exist: without this
+        # check an index below -len would wrap around a second time
+        if not -len(self) <= i < len(self):
+            raise IndexError("cadence assignment index out of range")
         if i < 0:
             i = len(self) + i
         label = self.order[i]
